@@ -17,7 +17,7 @@ before the first scanner read, retires losers only after the scan through the jo
 token before publishing a v3 record and the marker token before skipping a retired extent; the writer stamps the
 token with the landing sector. Not decided: that reopened contents are one complete recent generation per key.
 """
-DECIDED = ['writer and readers derive the same extent length (the token covers the padded extent; shared with C05.len)', 'the record-batch bracket journals every prepared write (shared with C02.order)', "(a) intent-journal brackets (retire_extents and process_write_batch, the latter shared with C02.order)", "(b) write layering / who-may-call",
+DECIDED = ["the recovery parser's bounds are the writer's admission bounds (shared with C10.bounds)", 'writer and readers derive the same extent length (the token covers the padded extent; shared with C05.len)', 'the record-batch bracket journals every prepared write (shared with C02.order)', "(a) intent-journal brackets (retire_extents and process_write_batch, the latter shared with C02.order)", "(b) write layering / who-may-call",
            "(c) replay-before-scan, token verification before publication, journalled post-scan retirement, token stamping",
            'fsync barriers separate intent journal, marker writes and journal clear of a retirement transaction',
            'decode_slot accepts exactly the images the layout allows (touching extents, extent ending at the device end)',
